@@ -17,7 +17,7 @@ RULE = (
 )
 ASSUMPTIONS = ["column standard deviation = population standard deviation (numpy default, ddof=0)", "tolerance 1e-12 (measures), 1e-9 relative (normalize)"]
 BUDGET = {
-    "quick": {"examples": 6000, "shards": 8, "min_nontrivial": 1000},
+    "quick": {"examples": 16000, "shards": 16, "min_nontrivial": 1000},
     "thorough": {"examples": 200000, "shards": 16, "min_nontrivial": 30000},
 }
 
@@ -62,6 +62,9 @@ def _norm_case(draw):
     # columns with a large common offset (|mean| >> std): timestamps, 1e8 + {0, 1}, ...
     offs = draw(st.lists(st.sampled_from([0.0, 0.0, 1e6, 1e8, 1.6e9, -1e7]), min_size=c, max_size=c))
     A = [[v + o for v, o in zip(row, offs)] for row in A]
+    # columns on a tiny or huge scale (std of 1e-9 or 1e+9 is still a non-constant column)
+    scl = draw(st.lists(st.sampled_from([1.0, 1.0, 1.0, 1e-9, 1e-12, 1e9]), min_size=c, max_size=c))
+    A = [[v * s_ if o == 0.0 else v for v, s_, o in zip(row, scl, offs)] for row in A]
     return {"t": "normalize", "A": A}
 
 
